@@ -875,6 +875,49 @@ fn c08_alphabet(cfg: &ServerCfg) -> Alphabet {
     ]
 }
 
+/// wide single-request alphabet: every function x quantities {1, 2, 8, 9, maximum} x starts
+/// {0, 5, last possible}: which authorization query (kind, range / index, value) each request
+/// produces must not depend on the quantity or the position
+fn c08_wide_alphabet(cfg: &ServerCfg) -> Alphabet {
+    let u = cfg.units[0].0;
+    let mut v: Alphabet = vec![];
+    let leak = |s: String| -> &'static str { Box::leak(s.into_boxed_str()) };
+    for fc in [1u8, 2, 3, 4] {
+        let max = if fc <= 2 { 2000u16 } else { 125 };
+        for q in [1u16, 2, 8, 9, max] {
+            for start in [0u16, 5, (0x10000u32 - q as u32) as u16] {
+                v.push((leak(format!("r{fc}-{start}-{q}")), u, read_pdu(fc, start, q)));
+            }
+        }
+    }
+    for (fc, val) in [(5u8, 0xFF00u16), (5, 0x0000), (6, 0xBEEF)] {
+        for a in [0u16, 5, 0xFFFF] {
+            let mut p = vec![fc];
+            p.extend_from_slice(&be(a));
+            p.extend_from_slice(&be(val));
+            v.push((leak(format!("w{fc}-{a}-{val:x}")), u, p));
+        }
+    }
+    for q in [1u16, 2, 8, 9, 1968] {
+        for start in [0u16, 5, (0x10000u32 - q as u32) as u16] {
+            let n = (q as usize).div_ceil(8);
+            let mut data = pattern(2, n);
+            if q % 8 != 0 {
+                *data.last_mut().unwrap() &= (1u8 << (q % 8)) - 1;
+            }
+            v.push((leak(format!("w15-{start}-{q}")), u, write_multi_pdu(15, start, q, n as u8, &data)));
+        }
+    }
+    for q in [1u16, 2, 8, 9, 123] {
+        for start in [0u16, 5, (0x10000u32 - q as u32) as u16] {
+            let n = 2 * q as usize;
+            v.push((leak(format!("w16-{start}-{q}")), u, write_multi_pdu(16, start, q, n as u8, &pattern(2, n))));
+        }
+    }
+    v.push(("observe", u, read_pdu(3, 0, 12)));
+    v
+}
+
 pub fn c08_policies(thorough: bool) -> Vec<PolicySpec> {
     let mut v = vec![];
     if thorough {
@@ -906,7 +949,7 @@ pub fn check_c08(tier: &str) -> i32 {
         "C08",
         tier,
         "model_checking",
-        "production server session with AuthorizationType::Handler(handler, role): all sequences of <= D requests over an 18-symbol alphabet (eight kinds with two ranges each, malformed, unknown function, unconfigured unit, observing read) x policies (per-function masks, unit/range/index/role predicates, stateful first-only and alternating, the built-in read-only policy) x role strings; the interleaved log of authorization and point-handler calls, the reply bytes and the final application state are compared with the reference server",
+        "production server session with AuthorizationType::Handler(handler, role): all sequences of <= D requests over an 18-symbol alphabet (eight kinds with two ranges each, malformed, unknown function, unconfigured unit, observing read) x policies (per-function masks, unit/range/index/role predicates, stateful first-only and alternating, the built-in read-only policy) x role strings; the interleaved log of authorization and point-handler calls, the reply bytes and the final application state are compared with the reference server. Second phase: every function at quantities {1, 2, 8, 9, maximum} x starts {0, 5, last possible} under every policy, alone and followed by every other such request",
     );
     let thorough = rep.thorough();
     let depth = if thorough { 4 } else { 3 };
@@ -933,6 +976,12 @@ pub fn check_c08(tier: &str) -> i32 {
     rep.bounds = json!({"sequence_depth": depth, "alphabet": 18, "configs": cfgs.len(), "roles": roles.len()});
     let st = explore_sequences("C08", &cfgs, depth, "RH", &c08_alphabet);
     rep.phase("sequences", st, json!({"depth": depth, "configs": cfgs.len()}));
+    // every function at boundary quantities and positions, alone and followed by one more request
+    let wide_depth = 2;
+    let wide_cfgs: Vec<ServerCfg> = cfgs.iter().filter(|c| thorough || matches!(&c.auth, Some((_, r)) if r == "operator")).cloned().collect();
+    let n_wide = c08_wide_alphabet(&wide_cfgs[0]).len();
+    let st = explore_sequences("C08", &wide_cfgs, wide_depth, "RH", &c08_wide_alphabet);
+    rep.phase("boundary quantities and positions", st, json!({"depth": wide_depth, "configs": wide_cfgs.len(), "alphabet": n_wide}));
     for c in ["denied", "read-ok", "write-ok", "unconfigured-unit", "unknown-function", "invalid:fc3:count-zero"] {
         rep.require_class(c);
     }
